@@ -109,7 +109,43 @@ def flat_form(prog, fi, e):
 
 
 def order_axis_form(prog, fi, e):
-    """decompose the model-order axis: {'op': '//' | '%', 'div': 'rows' | 'cols' | None, 'scaled': bool} or None"""
+    """decompose the model-order axis: {'op': '//' | '%', 'div': 'rows' | 'cols' | None, 'scaled': bool, 'offset': src or None} or None"""
+    # np.repeat(a + arange(ncols) * step, nrows): every column index repeated once per row  ==  (index // rows) * step  (+ a)
+    if isinstance(e, ast.Call) and astq.callee_name(prog, fi, e) in ("numpy.repeat", "numpy.tile") and len(e.args) >= 2:
+        kind = "//" if astq.callee_name(prog, fi, e) == "numpy.repeat" else "%"
+        inner, reps = e.args[0], e.args[1]
+        offset = None
+        terms = []
+
+        def addends(x):
+            if isinstance(x, ast.BinOp) and isinstance(x.op, ast.Add):
+                addends(x.left); addends(x.right)
+            else:
+                terms.append(x)
+        addends(inner)
+        ramp = None
+        for t_ in terms:
+            cur_, sc_ = t_, False
+            while isinstance(cur_, ast.BinOp) and isinstance(cur_.op, ast.Mult):
+                if isinstance(cur_.right, ast.Name) and cur_.right.id == "step":
+                    sc_, cur_ = True, cur_.left
+                elif isinstance(cur_.left, ast.Name) and cur_.left.id == "step":
+                    sc_, cur_ = True, cur_.right
+                else:
+                    break
+            if isinstance(cur_, ast.Call) and astq.callee_name(prog, fi, cur_) in ("numpy.arange", "range") and len(cur_.args) == 1:
+                ramp = (cur_, sc_)
+            else:
+                offset = astq.src(t_, 40) if not (isinstance(t_, ast.Constant) and t_.value == 0) else offset
+        if ramp is None:
+            return None
+        nsrc, rsrc = astq.src(ramp[0].args[0]), astq.src(reps)
+        ncols = nsrc.endswith(".shape[1]")
+        nrows_ = (isinstance(reps, ast.Call) and astq.callee_name(prog, fi, reps) == "len") or rsrc.endswith(".shape[0]")
+        div = None
+        if kind == "//":
+            div = "rows" if (ncols and nrows_) else ("cols" if (nsrc.endswith(".shape[0]") or (isinstance(ramp[0].args[0], ast.Call) and astq.src(ramp[0].args[0].func) == "len")) and rsrc.endswith(".shape[1]") else None)
+        return {"op": kind, "div": div, "scaled": ramp[1], "divsrc": rsrc, "offset": offset}
     scaled = False
     cur = e
     # peel  (...) * step
@@ -143,7 +179,7 @@ def order_axis_form(prog, fi, e):
     div = cur.right
     dt = astq.src(div)
     kind = "rows" if (isinstance(div, ast.Call) and astq.callee_name(prog, fi, div) == "len") or dt.endswith(".shape[0]") else ("cols" if dt.endswith(".shape[1]") else None)
-    return {"op": "//" if isinstance(cur.op, ast.FloorDiv) else "%", "div": kind, "scaled": scaled, "divsrc": dt}
+    return {"op": "//" if isinstance(cur.op, ast.FloorDiv) else "%", "div": kind, "scaled": scaled, "divsrc": dt, "offset": None}
 
 
 def flatten(prog, run, fi):
@@ -190,6 +226,9 @@ def flatten(prog, run, fi):
                f"`index {fo['op']} {fo['divsrc']}` with flatten order {want}", witness=f"{fo['op']} {fo['div']}|{want}", file=f, node=c, config=astq.src(ex, 50))
         run.ob("R-flatten", fi.qual, "order axis scaled by step", fo["scaled"], f"`{astq.src(ex, 70)}`" + ("" if fo["scaled"] else " is not multiplied by `step`"),
                witness=astq.src(ex, 60), file=f, node=c, config=astq.src(ex, 50))
+        if fo.get("offset"):
+            run.ob("R-flatten", fi.qual, "order axis starts at the first table column (no offset)", False,
+                   f"`{astq.src(ex, 70)}`: the order axis is shifted by `{fo['offset']}` although table column j always holds order j*step", witness=fo["offset"], file=f, node=c, config=astq.src(ex, 50))
 
 
 def markers(prog, run, fi):
@@ -273,6 +312,7 @@ def cmif(prog, run, fi):
 
 P, AS, AP = "functions.plot", "algorithms.ssi", "algorithms.plscf"
 MUTANTS = [
+    ("C20-m13 order axis offset by ordmin", P, "stab_plot", "y = np.array([i // len(Fns_stab) for i in range(len(x))]) * step", "y = np.repeat(ordmin + np.arange(Fns_stab.shape[1]) * step, Fns_stab.shape[0])", 1),
     ("C20-m01 cluster plot called with an unknown keyword", AP, "pLSCF.plot_cluster", "plot.cluster_plot(Fn=self.result.Fn_poles, Xi=self.result.Xi_poles, Lab=self.result.Lab, ordmin=self.run_params.ordmin, freqlim=freqlim, hide_poles=hide_poles)",
      "plot.cluster_plot(Fn=self.result.Fn_poles, Sm=self.result.Xi_poles, Lab=self.result.Lab, ordmin=self.run_params.ordmin, freqlim=freqlim, hide_poles=hide_poles)"),
     ("C20-m02 row-major flatten of the stable poles", P, "stab_plot", "Fns_stab.flatten(order='F')", "Fns_stab.flatten(order='C')"),
@@ -288,6 +328,7 @@ MUTANTS = [
     ("C20-m12 modulo order axis", P, "stab_plot", "i // len(Fns_stab)", "i % len(Fns_stab)", 2),
 ]
 REWRITES = [
+    ("C20-r05 order axis by np.repeat", P, "stab_plot", "y = np.array([i // len(Fns_stab) for i in range(len(x))]) * step", "y = np.repeat(np.arange(Fns_stab.shape[1]) * step, Fns_stab.shape[0])", 1),
     ("rename:C20-r01", P, "stab_plot", "Fns_stab", "stable"),
     ("C20-r02 lower-case order", P, "stab_plot", "Fns_stab.flatten(order='F')", "Fns_stab.flatten(order='f')"),
     ("C20-r03 shape[0] instead of len", P, "stab_plot", "i // len(Fns_stab)", "i // Fns_stab.shape[0]", 1),
